@@ -201,6 +201,24 @@ impl<T: Clone + std::fmt::Debug> G<T> {
     twin!(#[fastrace::trace()] async fn aget_p / aget_t<U: Into<u64>> (&self, a: u32, y: u32, u: U) -> (T, u64) { here!(); YieldN(y).await; (self.t.clone(), u.into() + a as u64) });
 }
 
+/// methods whose `where` clause constrains the impl's parameter (the function has no generic
+/// parameters of its own); `.clone()` on a `&T` resolves to `T::clone` only with the bound
+#[derive(Debug)]
+struct Noisy(u32);
+impl Clone for Noisy {
+    fn clone(&self) -> Self {
+        log(format!("clone:{}", self.0));
+        Noisy(self.0 + 100)
+    }
+}
+struct Shelf<T> {
+    items: Vec<T>,
+}
+impl<T: std::fmt::Debug> Shelf<T> {
+    twin!(#[fastrace::trace()] fn snap_p / snap_t (&self, a: u32) -> String where T: Clone { here!(); let copies: Vec<_> = self.items.iter().take(a as usize + 1).map(|it| it.clone()).collect(); format!("{copies:?}") });
+    twin!(#[fastrace::trace()] async fn asnap_p / asnap_t (&self, a: u32, y: u32) -> String where T: Clone { here!(); YieldN(y).await; let copies: Vec<_> = self.items.iter().take(a as usize + 1).map(|it| it.clone()).collect(); format!("{copies:?}") });
+}
+
 trait Dflt {
     fn base(&self) -> u32;
     twin!(#[fastrace::trace()] fn dflt_p / dflt_t (&self, a: u32) -> u32 { here!(); log("dflt"); self.base() + a });
@@ -595,6 +613,7 @@ fn cases() -> Vec<Case> {
     sync_case!(c, "S::make", None, no_props, |a| S::make_p(a).v, S::make_t(a).v);
     sync_case!(c, "G::get", None, no_props, |a| G { t: vec![a] }.get_p(a), G { t: vec![a] }.get_t(a));
     sync_case!(c, "Dflt::dflt", None, no_props, |a| S { v: 4 }.dflt_p(a), S { v: 4 }.dflt_t(a));
+    sync_case!(c, "Shelf::snap", None, no_props, |a| Shelf { items: vec![Noisy(1), Noisy(2), Noisy(3)] }.snap_p(a), Shelf { items: vec![Noisy(1), Noisy(2), Noisy(3)] }.snap_t(a));
     sync_case!(c, "S::ref", None, no_props, |a| S { v: 10 }.ref_p(a), S { v: 10 }.ref_t(a));
     sync_case!(c, "S::mut", Some("mut_t"), no_props, |a| { let mut s = S { v: 10 }; (s.mut_p(a), s.v) }, { let mut s = S { v: 10 }; (s.mut_t(a), s.v) });
     sync_case!(c, "S::own", Some("consume"), no_props, |a| S { v: 10 }.own_p(a), S { v: 10 }.own_t(a));
@@ -684,6 +703,7 @@ fn cases() -> Vec<Case> {
         }
     );
     async_case!(c, "G::aget", None, no_props, false, |a, y| async move { G { t: "g" }.aget_p(a, y, 7u32).await }, async move { G { t: "g" }.aget_t(a, y, 7u32).await });
+    async_case!(c, "Shelf::asnap", None, no_props, false, |a, y| async move { Shelf { items: vec![Noisy(1), Noisy(2)] }.asnap_p(a, y).await }, async move { Shelf { items: vec![Noisy(1), Noisy(2)] }.asnap_t(a, y).await });
     async_case!(c, "atail_nested", Some("atail"), no_props, false, |a, y| atail_nested_p(a, y), atail_nested_t(a, y));
     async_case!(c, "atail2_nested", Some("atail2"), no_props, true, |a, y| atail2_nested_p(a, y), atail2_nested_t(a, y));
     async_case!(c, "atail3_nested", Some("atail3"), no_props, false, |a, y| atail3_nested_p(a, y), atail3_nested_t(a, y));
@@ -837,7 +857,7 @@ fn main() {
         "coverage": {
             "evaluations": out.evaluations,
             "distinct_nontrivial": out.classes.len(),
-            "rule": "twin functions generated from the same tokens with and without #[trace]: 16 sync shapes (value, name=, short_name, literal/format/escaped properties, early return, ?, panic, &mut mutation, by-value move, borrowed return, generic + where, locals with Drop, nested annotated call, unit, impl Trait return), 5 methods (&self, &mut self, self, properties over self fields, async &self), 11 async shapes (incl. enter_on_poll, ?, panic, early return, moves, &mut borrow, generic, nested), async_trait impl (in_span and enter_on_poll), native async-in-trait, further sync shapes (mut / pattern / wildcard arguments, const generics, unsafe fn, extern C fn, labelled loops, returned closure, inner items, return inside a closure, let-else, unwinding past locals, recursion, Box<Self> / &Arc<Self> receivers, Self-returning associated function, method of a generic impl, default method of a trait), further async shapes (reference arguments, pattern arguments, no await, locals dropped across awaits, inner async blocks and closures, impl Trait argument, enter_on_poll with ? and &mut self, generic method of a generic impl), cancellation (future polled once or twice, then dropped: 5 shapes), 4 plain functions returning a boxed future (Box::pin(async { .. }) and Box::pin(async move { .. }) after other statements, a lone Box::pin(async move { .. }), Box::pin(ready(..)); two of them also with the returned future leaked); x arguments {0,1,2} x pending polls {0,1,2} x {under a root, inside a local span, no local parent, local parent set anew around every poll (async twins)}; distinct_nontrivial counts distinct (function, local parent?, outcome kind) classes",
+            "rule": "twin functions generated from the same tokens with and without #[trace]: 16 sync shapes (value, name=, short_name, literal/format/escaped properties, early return, ?, panic, &mut mutation, by-value move, borrowed return, generic + where, locals with Drop, nested annotated call, unit, impl Trait return), 5 methods (&self, &mut self, self, properties over self fields, async &self), 11 async shapes (incl. enter_on_poll, ?, panic, early return, moves, &mut borrow, generic, nested), async_trait impl (in_span and enter_on_poll), native async-in-trait, further sync shapes (mut / pattern / wildcard arguments, const generics, unsafe fn, extern C fn, labelled loops, returned closure, inner items, return inside a closure, let-else, unwinding past locals, recursion, Box<Self> / &Arc<Self> receivers, Self-returning associated function, method of a generic impl, default method of a trait, methods whose where clause constrains the impl's parameter), further async shapes (reference arguments, pattern arguments, no await, locals dropped across awaits, inner async blocks and closures, impl Trait argument, enter_on_poll with ? and &mut self, generic method of a generic impl), cancellation (future polled once or twice, then dropped: 5 shapes), 4 plain functions returning a boxed future (Box::pin(async { .. }) and Box::pin(async move { .. }) after other statements, a lone Box::pin(async move { .. }), Box::pin(ready(..)); two of them also with the returned future leaked); x arguments {0,1,2} x pending polls {0,1,2} x {under a root, inside a local span, no local parent, local parent set anew around every poll (async twins)}; distinct_nontrivial counts distinct (function, local parent?, outcome kind) classes",
             "samples": [cases().iter().map(|c| c.id.clone()).step_by(17).collect::<Vec<_>>()],
             "exhaustive": true,
             "violation_list": out.violations,
